@@ -116,6 +116,8 @@ def gen_cases(ctx):
         for mi, ct in enumerate(MEDIA):
             for bname in BODIES:
                 yield dict(status=sname, path='/api', media=mi, body=bname, endpoint='/v2')
+                if bname in ('call', 'mixed', 'notif', 'unknown') and mi % 2 == 0:
+                    yield dict(status=sname, path='/api', media=mi, body=bname, endpoint='/v2', target='main')
                 if bname in ('call', 'mixed', 'notif', 'parse', 'non-utf8') and mi % 3 == 0:
                     yield dict(status=sname, path='/api', media=mi, body=bname, endpoint='/v2', endpoint_mode='container')
                     yield dict(status=sname, path='/api', media=mi, body=bname, endpoint='/v2', endpoint_mode='child')
@@ -133,7 +135,7 @@ def run_case(case, rec):
             continue
         if case.get('endpoint_mode') == 'child' and kind != 'aiohttp':
             continue
-        integ = Integration(kind, case['path'], status_by_error=sfn, endpoint=case.get('endpoint', ''), endpoint_mode=case.get('endpoint_mode', 'plain'))
+        integ = Integration(kind, case['path'], status_by_error=sfn, endpoint=case.get('endpoint', ''), endpoint_mode=case.get('endpoint_mode', 'plain'), target=case.get('target', 'endpoint'))
         register(integ.dispatcher, log, kind == 'aiohttp')
         if case.get('endpoint'):
             # the main endpoint serves nothing: a request routed to the wrong dispatcher shows up as 'method not found'
@@ -215,7 +217,7 @@ def replay(doc):
     from mc.core import Recorder, jdump
     rec = Recorder()
     c = doc['case']
-    run_case({k: c[k] for k in ('status', 'path', 'media', 'body', 'endpoint', 'endpoint_mode') if k in c}, rec)
+    run_case({k: c[k] for k in ('status', 'path', 'media', 'body', 'endpoint', 'endpoint_mode', 'target') if k in c}, rec)
     for v in rec.violations[:6]:
         print('VIOLATION-REPLAY signature=%s\n  expected=%s\n  observed=%s' % (v['signature'], jdump(v['expected'])[:300], jdump(v['observed'])[:300]))
     print('replayed: %d violation(s)' % len(rec.violations))
